@@ -68,7 +68,7 @@ class transform_or2and(SympyTransformer):
     def visit_Or(self, expr):
         if len(expr.args) > 2 or DISABLE_OR:
             return Not(And(*[Not(self.visit(e)) for e in expr.args]))
-        return expr
+        return super().visit_Or(expr)
 
 
 class remove_obvious_expr(SympyTransformer):
